@@ -22,7 +22,15 @@ class E2Prop(Prop):
         return out
 
     def parse(self, case_line, trace):
-        return ws.SCase(case_line), ws.parse_trace(trace)
+        case, ots = ws.SCase(case_line), ws.parse_trace(trace)
+        if any(o.startswith('sn:') for o in case.ops):
+            # no-op set_config calls (see main.perturb_noop_config) are invisible to the monitors; that they answer `ok`
+            # without touching the transport is checked by the correspondence with the model
+            keep = [i for i, o in enumerate(case.ops) if not o.startswith('sn:')]
+            if len(ots) == len(case.ops):
+                ots = [ots[i] for i in keep]
+            case.ops = [case.ops[i] for i in keep]
+        return case, ots
 
     def nontrivial_key(self, case_line, trace):
         # distinct by the canonical trace; non-trivial = at least one transport event and one non-WouldBlock result
